@@ -73,7 +73,7 @@ type ContractFile struct {
 }
 
 var clauseWords = map[string]bool{
-	"func": true, "iface": true, "ext": true, "fieldfunc": true, "lemma": true, "struct": true, "tag": true,
+	"func": true, "iface": true, "ext": true, "fieldfunc": true, "lemma": true, "struct": true, "tag": true, "decodes_as": true,
 	"requires": true, "ensures": true, "panics": true, "may_panic": true, "modifies": true, "assigns": true,
 	"loop": true, "ghost": true, "at": true, "trusted": true, "inline": true, "pure": true, "props": true,
 	"spec": true, "axiom": true, "event": true, "env": true, "assume": true, "decreases": true, "global": true,
@@ -238,6 +238,18 @@ func ParseContractText(path, pkgPath, src string) (*ContractFile, error) {
 			cl.GhostName = f[0]
 			cl.AtKind = f[1]
 			cl.AtName = f[2]
+		case "decodes_as":
+			// decodes_as Target [except F1,F2]: every field of this struct, marshalled to YAML, is decoded into a field of Target
+			f := strings.Fields(rest)
+			if len(f) != 1 && !(len(f) == 3 && f[1] == "except") {
+				return nil, errf("decodes_as needs 'Target [except F1,F2]'")
+			}
+			cl.Kind = "decodes_as"
+			cl.Text = rest
+			cl.AtName = f[0]
+			if len(f) == 3 {
+				cl.GhostName = f[2]
+			}
 		case "var":
 			// var a, b real
 			f := strings.Fields(strings.ReplaceAll(rest, ",", " "))
